@@ -4,6 +4,7 @@
 package sfake
 
 import (
+	"runtime"
 	"context"
 	"encoding/json"
 	"errors"
@@ -44,6 +45,12 @@ type World struct {
 	Log    []Event
 	failAt map[string]int // op kind -> number of calls of that kind until the failing one (1 = the next call)
 	Epoch  int            // incarnation allowed to touch durable state
+	// crash point: after this many further durable effects (a checkpoint write, a downstream acknowledgement of an event) the
+	// running incarnation is dead - Epoch moves on and the fakes stop answering it (0 = not armed)
+	crashIn int
+	Crashes int // crash points reached so far
+	// ExitDead: a goroutine of a dead incarnation that calls a fake is ended (runtime.Goexit) instead of being parked for ever
+	ExitDead bool
 }
 
 func NewWorld() *World {
@@ -82,6 +89,37 @@ func (w *World) fault(kind string) bool {
 func (w *World) ev(kind, key, val string, ok bool) {
 	w.Clock++
 	w.Log = append(w.Log, Event{Clock: w.Clock, Kind: kind, Key: key, Val: val, OK: ok})
+	if w.crashIn > 0 && ok && (kind == "pos.put" || kind == "event.ack") {
+		w.crashIn--
+		if w.crashIn == 0 {
+			w.Epoch++
+			w.Crashes++
+		}
+	}
+}
+
+// CrashAfter arms a crash point: the incarnation dies right after its n-th further durable effect (n = 0: now).
+func (w *World) CrashAfter(n int) {
+	w.Mu.Lock()
+	defer w.Mu.Unlock()
+	if n == 0 {
+		w.Epoch++
+		w.Crashes++
+		return
+	}
+	w.crashIn = n
+}
+
+func (w *World) ClearCrash() {
+	w.Mu.Lock()
+	defer w.Mu.Unlock()
+	w.crashIn = 0
+}
+
+func (w *World) CrashCount() int {
+	w.Mu.Lock()
+	defer w.Mu.Unlock()
+	return w.Crashes
 }
 
 func (w *World) Record(kind, key, val string, ok bool) {
@@ -110,6 +148,10 @@ func (w *World) fenced(epoch int) {
 	dead := epoch != w.Epoch
 	w.Mu.Unlock()
 	if dead {
+		if w.ExitDead {
+			// the goroutine ends here; what it has deferred runs (it may hold a process-wide lock of the code under test)
+			runtime.Goexit()
+		}
 		select {}
 	}
 }
@@ -500,6 +542,9 @@ func (m *MetaOp) info(c Coll) *pb.CollectionInfo {
 	return ci
 }
 
+// Info is the catalog record of a collection as the source reports it
+func (m *MetaOp) Info(c Coll) *pb.CollectionInfo { return m.info(c) }
+
 func (m *MetaOp) GetAllCollection(ctx context.Context, f api.CollectionFilter) ([]*pb.CollectionInfo, error) {
 	var r []*pb.CollectionInfo
 	for _, c := range m.Colls {
@@ -538,6 +583,9 @@ func (m *MetaOp) GetAllDroppedObj() map[string]map[string]uint64 {
 type Writer struct {
 	*api.DefaultWriter
 	W *World
+	// Fence: the writer belongs to incarnation Epoch and stops answering once that one is dead
+	Fence bool
+	Epoch int
 }
 
 // FailNext kinds: "write" (HandleReplicateMessage), "event" (HandleReplicateAPIEvent), "op" (HandleOpMessagePack)
@@ -554,6 +602,9 @@ func (w *Writer) HandleReplicateMessage(ctx context.Context, ch string, p *msgst
 }
 
 func (w *Writer) HandleReplicateAPIEvent(ctx context.Context, e *api.ReplicateAPIEvent) error {
+	if w.Fence {
+		w.W.fenced(w.Epoch)
+	}
 	w.W.Mu.Lock()
 	defer w.W.Mu.Unlock()
 	key := fmt.Sprintf("%s/%d", e.EventType.String(), e.CollectionInfo.GetID())
